@@ -146,6 +146,23 @@ def _element_node(element, style):
     form, cls = element["form"], element["cls"]
     args = [value_node(kind, flow) for kind in element["args"]]
     kwargs = [(name, value_node(kind, flow)) for name, kind in element["kwargs"].items()]
+    merge = element.get("merge")
+    if merge and kwargs:
+        # the keyword items arrive through a merge key: "<<: {k: ..}", "<<: [{k: ..}, ..]",
+        # or "<<: &name {..}" at the first and "<<: *name" at a later element
+        first, rest = kwargs[:1], kwargs[1:]
+        if merge == "inline":
+            kwargs = [("<<", yt.mapping(first, flow=flow))] + rest
+        elif merge == "list":
+            kwargs = [("<<", yt.seq([yt.mapping([item], flow=flow) for item in kwargs],
+                                    flow=flow))]
+        elif merge == "anchor":
+            source = yt.mapping(kwargs, flow=flow)
+            source.tag = "&merged"
+            kwargs = [("<<", source)]
+        else:
+            assert merge == "alias"
+            kwargs = [("<<", yt.scalar("*merged"))]
     if form == "tagmap":
         assert not args
         return yt.mapping(kwargs, tag="!" + cls, flow=flow)
@@ -295,7 +312,7 @@ def judge(case, result, error, log, attempts):
 
     owners = {}
     for record, pos in zip(log, expect_positions):
-        if elements[pos].get("alias"):
+        if elements[pos].get("alias") or elements[pos].get("merge") in ("anchor", "alias"):
             continue   # an alias repeats the anchored node, nested objects included
         for item in items_in([record.args, record.kwargs], []):
             if not any(item is made for made in vp.ITEMS):
@@ -502,6 +519,53 @@ def repeat_cases(size, parity, style):
                             yield case, BOTH
 
 
+def merge_cases(size, parity, style):
+    """Keyword items supplied through YAML merge keys, in !Tag mappings and __type__
+    mappings alike (the two notations stay interchangeable)"""
+    for forms in itertools.product(("tagmap", "typemap"), repeat=size):
+        for pattern in range(len(VALUE_KINDS)):
+            arguments = [grid_element(form, 2 * pos, pattern)
+                         for pos, form in enumerate(forms)]
+            for merge in ("inline", "list", "anchor"):
+                for fail in [None] + (list(range(size)) if pattern == 0 else []):
+                    case = make_case(forms, arguments, parity, style, fail)
+                    for pos, element in enumerate(case["elements"]):
+                        element["merge"] = merge
+                    if merge == "anchor":
+                        # one set of keyword items, written once and merged everywhere
+                        for element in case["elements"][:-1]:
+                            element["kwargs"] = dict(case["elements"][-1]["kwargs"])
+                            element["merge"] = "alias"
+                        # the tail comes first in construction, not in the text: anchor at
+                        # the head, aliases behind it
+                        head = case["elements"][0]
+                        head["kwargs"] = dict(case["elements"][-1]["kwargs"])
+                        head["merge"] = "anchor"
+                        for element in case["elements"][1:]:
+                            element["kwargs"] = dict(head["kwargs"])
+                            element["merge"] = "alias"
+                    case["family"] = "merge"
+                    yield case, BOTH
+
+
+def falsy_cases(size, parity, style):
+    """An element that is falsy once constructed (an empty container-like decorator, a pool
+    that reports False) is an element like any other"""
+    for position in range(1, size):
+        for forms in itertools.product(HEAD_FORMS, repeat=size):
+            for pattern in (0, 3):
+                arguments = [grid_element(form, 2 * pos, pattern)
+                             for pos, form in enumerate(forms)]
+                case = make_case(forms, arguments, parity, style, None)
+                element = case["elements"][position]
+                if position == size - 1:
+                    element["cls"] = "VPoolZL"
+                else:
+                    element["cls"] = "VDecoZ" + ("E" if (position + parity) % 2 == 0 else "L")
+                case["family"] = "falsy"
+                yield case, BOTH
+
+
 def small_options(tail, max_arity):
     """Every (form, args, kwargs) of one element with arity 0..max_arity"""
     options = [("bare", (), {})]
@@ -537,6 +601,10 @@ def shard(args):
         cases = grid_cases(*args[1:])
     elif kind == "repeat":
         cases = repeat_cases(*args[1:])
+    elif kind == "merge":
+        cases = merge_cases(*args[1:])
+    elif kind == "falsy":
+        cases = falsy_cases(*args[1:])
     else:
         cases = small_cases(*args[1:])
     try:
@@ -583,6 +651,10 @@ def run(ctx):
                 shards.append(("small", size, index, small_arity[size], parity, style))
         for size in (3, 4):
             shards.append(("repeat", size, parity, style))
+        for size in (1, 2, 3):
+            shards.append(("merge", size, parity, style))
+        for size in (2, 3, 4):
+            shards.append(("falsy", size, parity, style))
     ctx.pmap(shard, shards, chunksize=1)
     ctx.meta.update(
         rule="YAML documents with a pipeline of n elements: every assignment of the forms "
@@ -597,6 +669,10 @@ def run(ctx):
              "plus, for n in {3, 4}: one element at two of the non-tail positions (every "
              "pair) in every form, as the same text twice or as anchor + alias, x the "
              "form of the other elements x the value rotations; "
+             "for n <= 3 with the forms !Tag mapping / __type__ mapping: the keyword items "
+             "written through merge keys (inline mapping, list of mappings, anchor + "
+             "aliases); for n in {2, 3, 4}: an element that is falsy once constructed at "
+             "every position behind the head; "
              "non-trivial = at least two elements (something is linked); distinct by the "
              "full case"
              % (HEAD_FORMS, VALUE_KINDS, STYLES,
